@@ -203,4 +203,44 @@ theorem decIsKey_adjacent_excl_all (d : Dec) (k : Int)
       omega
     exact decIsKey_adjacent_excl_pos d n (by omega) he
 
+theorem cmpScaled_int_cmp (A m t j : Nat) :
+    cmpScaled A ((t : Int) - (j : Int)) (m * 2 ^ t) 0 = compare A (m * 2 ^ j) := by
+  unfold cmpScaled
+  by_cases h : j ≤ t
+  · have h1 : ((t : Int) - (j : Int)).toNat = t - j := by omega
+    have h2 : (-((t : Int) - (j : Int))).toNat = 0 := by omega
+    have hp : 2 ^ t = 2 ^ j * 2 ^ (t - j) := by rw [← Nat.pow_add]; congr 1; omega
+    simp only [h1, h2, Int.neg_zero, Int.toNat_zero, Nat.pow_zero, Nat.mul_one, hp, ← Nat.mul_assoc]
+    have hP : 0 < 2 ^ (t - j) := Nat.pow_pos (by decide)
+    rcases Nat.lt_trichotomy A (m * 2 ^ j) with hl | he | hg
+    · rw [Nat.compare_eq_lt.mpr hl, Nat.compare_eq_lt]; exact Nat.mul_lt_mul_of_pos_right hl hP
+    · rw [he]; simp
+    · rw [Nat.compare_eq_gt.mpr hg, Nat.compare_eq_gt]; exact Nat.mul_lt_mul_of_pos_right hg hP
+  · have h1 : ((t : Int) - (j : Int)).toNat = 0 := by omega
+    have h2 : (-((t : Int) - (j : Int))).toNat = j - t := by omega
+    have hp : 2 ^ j = 2 ^ t * 2 ^ (j - t) := by rw [← Nat.pow_add]; congr 1; omega
+    simp only [h1, h2, Int.neg_zero, Int.toNat_zero, Nat.pow_zero, Nat.mul_one, hp, ← Nat.mul_assoc]
+
+/-- NO FALSE REJECTION for the large integers of the C04 defect: every double `≥ 2^52` (an integer
+    `M·2^t`) is denoted by its exact integer text -/
+theorem decIsKey_exact_int (n t : Nat) (ht : n / 2 ^ 52 = 1075 + t) (hf : n / 2 ^ 52 < 2047) :
+    decIsKey ⟨false, (2 ^ 52 + n % 2 ^ 52) * 2 ^ t, 0⟩ (n : Int) = true := by
+  have hn : 0 < n := by
+    rcases Nat.eq_zero_or_pos n with h | h
+    · subst h; omega
+    · exact h
+  rw [decIsKey_pos _ n hn hf]
+  have hz : ¬ (n / 2 ^ 52 = 0) := by omega
+  have hE1 : (((n / 2 ^ 52 : Nat) : Int) - 1075 - 1) = (t : Int) - ((1 : Nat) : Int) := by omega
+  have hE2 : (((n / 2 ^ 52 : Nat) : Int) - 1075 - 2) = (t : Int) - ((2 : Nat) : Int) := by omega
+  simp only [hz, if_false, hE1, hE2, cmpScaled_int_cmp]
+  have hup : compare (2 * (2 ^ 52 + n % 2 ^ 52) + 1) ((2 ^ 52 + n % 2 ^ 52) * 2 ^ 1) = .gt := by
+    rw [Nat.compare_eq_gt]; omega
+  have hlo2 : compare (2 * (2 ^ 52 + n % 2 ^ 52) - 1) ((2 ^ 52 + n % 2 ^ 52) * 2 ^ 1) = .lt := by
+    rw [Nat.compare_eq_lt]; omega
+  have hlo4 : compare (4 * (2 ^ 52 + n % 2 ^ 52) - 1) ((2 ^ 52 + n % 2 ^ 52) * 2 ^ 2) = .lt := by
+    rw [Nat.compare_eq_lt]; omega
+  rw [hup]
+  split <;> simp [hlo2, hlo4]
+
 end Sod.Codec
